@@ -22,14 +22,21 @@ Check cscreen_sim_f. Check cwin_flush_sim_f. Check end_to_end_c01_f. Check end_t
 
 (* ------------------------------------------------------------------------------------ *)
 (* the harness's application content satisfies the content hypothesis: printable ASCII 48..122 *)
+Lemma ascii_width_one : forall c, 48 <= c < 123 -> cpw c = 1.
+Proof.
+  assert (G : forallb (fun k => cpw (48 + Z.of_nat k) =? 1) (seq 0 75) = true) by (vm_compute; reflexivity).
+  intros c Hc. rewrite forallb_forall in G.
+  specialize (G (Z.to_nat (c - 48))). replace (48 + Z.of_nat (Z.to_nat (c - 48))) with c in G by lia.
+  apply Z.eqb_eq. apply G. apply in_seq. lia.
+Qed.
+
 Lemma app_base_ok : app_ok app_base.
 Proof.
   intros id y x. unfold app_base.
   assert (H : 0 <= app_mix id y x mod 75 < 75) by (apply Z.mod_pos_bound; lia).
   set (k := app_mix id y x mod 75) in *.
   split.
-  - unfold cpw. replace ((32 <=? 48 + k) && (48 + k <=? 126)) with true; [reflexivity|].
-    symmetry. apply andb_true_iff. split; apply Z.leb_le; lia.
+  - apply ascii_width_one. lia.
   - unfold is_line, LINEBASE. apply andb_false_iff. left. apply Z.ltb_ge. lia.
 Qed.
 
